@@ -25,7 +25,7 @@ import (
 
 func main() {
 	r := core.NewRun("C23", "exploration",
-		"one case = a generated trigger set (0-3 triggers per (table, BEFORE/AFTER, INSERT/UPDATE/DELETE), bodies = audit row + SET NEW / nested DML on the next table / IF..SIGNAL, FOLLOWS/PRECEDES) and 10 DML statements (multi-row, ORDER BY, failing at row k by duplicate key or SIGNAL, FK cascades); after each statement the audit sequence, all tables and the outcome are compared with a reference interpreter; distinct = (statement kind, classes of triggers fired, nesting depth reached, outcome)")
+		"one case = a generated trigger set (0-3 triggers per (table, BEFORE/AFTER, INSERT/UPDATE/DELETE), bodies = audit row + SET NEW / nested DML on the next table / IF..SIGNAL, FOLLOWS/PRECEDES) and 10 DML statements (multi-row, ORDER BY, failing at row k by duplicate key or SIGNAL, FK cascades); after each statement the audit sequence, all tables and the outcome are compared with a reference interpreter; distinct = (statement kind, classes of triggers fired, nesting depth reached, outcome); an IF/ELSE case = one BEFORE/AFTER INSERT trigger whose IF / ELSEIF / ELSE branches mix SET NEW, DML on a side table and user-variable assignments, fired by one multi-row INSERT in which the branch taken varies by row, compared with a row-by-row twin")
 	r.Fold(8, 3)
 	if d := os.Getenv("C23_DEPTH"); d != "" {
 		fmt.Sscan(d, &chainDepth)
@@ -37,7 +37,9 @@ func main() {
 
 	n := r.N(500, 9000)
 	r.Parallel("case", n, func(i int) { runCase(r, i) })
+	ifElseBattery(r)
 	pinned(r)
+	r.Floor(r.Counter("ifelse.rows") > 0, "no IF/ELSE trigger body fired")
 	r.Floor(r.Counter("fired.nested-depth-2") > 0, "no nested statement of a trigger body fired triggers itself")
 	r.Floor(r.Counter("stmt.failed-as-predicted") > 0, "no failing statement")
 	r.Floor(r.Counter("order.follows-precedes-checked") > 0, "FOLLOWS/PRECEDES never exercised")
@@ -784,6 +786,32 @@ func pinned(r *core.Run) {
 		want := []string{"7|7", "9|11"}
 		r.Pinned("set-new-not-visible-later-in-same-body", fmt.Sprintf("SET NEW.b = NEW.b + 2; UPDATE m2 .. WHERE a = NEW.b for NEW.b = 7 leaves m2 = %v, expected %v", got, want),
 			!core.SameStrings(got, want), map[string]any{"m2": got})
+		e.Close()
+	}
+	// IF block in which one branch sets NEW and the branch taken for a row does not
+	for _, c := range []struct{ sig, body, ins string }{
+		{"panic", "IF NEW.id > 100 THEN SET NEW.v = 1; ELSE INSERT INTO side VALUES (NEW.id + 50); END IF", "INSERT INTO t VALUES (1, 0), (2, 0)"},
+		{"rows-differ", "IF NEW.id > 11 THEN DELETE FROM side WHERE id < NEW.id; ELSEIF NEW.id > 4 THEN SET NEW.v = NEW.id + 200; ELSE SET NEW.v = NEW.id + 300; END IF", "INSERT INTO t VALUES (1, 0), (8, 0), (12, 0)"},
+		{"statement-failed", "IF NEW.id > 100 THEN SET NEW.v = -1; ELSE DELETE FROM side WHERE id < NEW.id; END IF; INSERT INTO side VALUES (NEW.id + 1)", "INSERT INTO t VALUES (1, 0), (2, 0), (4, 0), (5, 0)"},
+	} {
+		e := core.NewEng("d")
+		s := e.NewSess()
+		s.Exec("CREATE TABLE t (id INT PRIMARY KEY, v INT)")
+		s.Exec("CREATE TABLE side (id INT PRIMARY KEY)")
+		s.Exec("CREATE TRIGGER trg BEFORE INSERT ON t FOR EACH ROW BEGIN " + c.body + "; END")
+		res := s.Exec(c.ins)
+		got := core.SortedRows(s.Exec("SELECT id, v FROM t").Rows)
+		fails := false
+		switch c.sig {
+		case "panic":
+			fails = res.Panic != nil
+		case "statement-failed":
+			fails = res.Panic == nil && res.Err != nil
+		case "rows-differ":
+			fails = res.Panic == nil && res.Err == nil && !core.SameStrings(got, []string{"1|301", "12|0", "8|208"})
+		}
+		r.Pinned("ifelse-branch-without-set-new-beside-set-new-branch:"+c.sig, fmt.Sprintf("BEFORE INSERT trigger body `%s`; %s: %s, t = %v", c.body, c.ins, orOK(errText(res)), got),
+			fails, map[string]any{"body": c.body, "insert": c.ins, "t": got, "outcome": errText(res)})
 		e.Close()
 	}
 }
